@@ -93,8 +93,12 @@ claim("C17",
   "ONE schedule per history: goroutines run round-robin until each blocks, a time-out or Sleep only fires when no party can proceed (at most 12 firings per scheduler run); the harness' events fall between such quiescent points, NOT in the middle of a watcher's step; newClientSession is a stub (reachability of the real server, dialling, the handshake are not part of this check); context.WithCancel is a stub with the documented contract; epochs are concrete (0 and 7); elapsed time ('after the rebuild interval') is not measured",
   "DESIGN.md 15.3/C17")
 
+claim("C12",
+  "Real newSession on both ends (memfd client, current server): initMemManager, initProtocol with its goroutine and InitializeTimeout, getProtocolInitializer (version announcement and answer), protocolInitializerV3 client/server, sendMemFdToPeer / handleShareMemoryByMemFd (metadata, ready-ack, descriptor passing, mapping, final ack), blockReadFull/blockWriteFull, and newSession's failure clean-up, executed symbolically with every goroutine as a coroutine over a socket model (two blocking byte FIFOs + a FIFO of passed descriptors; the kernel takes writes whole or in pieces of 3/6 bytes) and the memfd/mmap OS model. Variants: client and server in one process (shared buffer-manager table, as in the repository's tests; natively replayable) and as two processes (each party has its own table: the server maps the buffer memory itself). Faults: one end stops answering in front of its k-th socket call (k = 0..7, either end); the n-th Fstat/Mmap call of the run fails (n = 1..6). Oracle: both calls return; both succeed with the same (highest common) version, both ends map the very same queue and buffer memory, what one end enqueues the other dequeues, or both fail (the end that stopped answering after the other end's last step may fail alone) and no mapping or descriptor is left. One genuine defect found and fixed (F-HSLEAK: descriptors/mappings left behind when setting up the memory fails half-way).",
+  "the parties interact only through blocking FIFO operations (a Kahn network: one schedule stands for all), time-outs fire only when no party can proceed and never race with a late answer; NOT covered: the /dev/shm file back-end and protocol 2 (its OS calls are not modelled), tcp, a peer that dies (closes the socket) or sends garbage (C13 covers post-handshake events only), wall-clock time, kernel aliasing of MAP_SHARED pages and real descriptor passing (OS model: mapping the same file yields the same region), the descriptor obtained from getConnDupFd; VerifyConfig is stubbed (small configuration)",
+  "DESIGN.md 15.3/C12")
+
 NOT_APPLICABLE = {
- "C12": "the handshake needs two blocking parties alternating over a pipe plus descriptor passing; the engine has no coroutines / blocking threads over Go-heap FIFOs, and splitting Init by hand would no longer execute the real functions; only the 'both ends map the same memory' fact is asserted inside the C14 harness over the OS model",
 }
 
 def main():
